@@ -722,7 +722,9 @@ def fixed_cases():
         _raw('H = H[-1] + YD - C  # comment\n\nYD = Y - T\nY = C + G + <e>[1]',
              [['H', 'H[t] = H[t-1] + YD[t] - C[t]', 'self._H[t] = self._H[t-1] + self._YD[t] - self._C[t]'], ['YD', 'YD[t] = Y[t] - T[t]', 'self._YD[t] = self._Y[t] - self._T[t]'],
               ['Y', 'Y[t] = C[t] + G[t] + e[t+1]', 'self._Y[t] = self._C[t] + self._G[t] + self._e[t+1]']], ['H', 'YD', 'Y', 'C', 'T', 'G', 'e']),
-        _raw('Y = exp + exp(X)', [['Y', 'Y[t] = exp[t] + exp(X[t])', 'self._Y[t] = self._exp[t] + np.exp(self._X[t])']], ['Y', 'exp', 'X']),                 # 19
+        dict(_raw('Y = exp + exp(X)'), reject='SymbolError'),           # 19, repaired by b45daa1: a name used as a series and as a function is rejected
+        dict(_raw('Y = log(log[-1])'), reject='SymbolError'),
+        dict(_raw('Y = exp(X)\nZ = exp'), reject='SymbolError'),
         _raw('Y = X [-1]', [['Y', 'Y[t] = X[t-1]', 'self._Y[t] = self._X[t-1]']], ['Y', 'X']),                                                                  # 20
         _raw('Y = {{a}}', [['Y', 'Y[t] = {a[t]}', 'self._Y[t] = {self._a[t]}']], ['Y', 'a']),
         _raw('Y = 1 if not{X} > 0 else 2', [['Y', 'Y[t] = 1 if not X[t] > 0 else 2', 'self._Y[t] = 1 if not self._X[t] > 0 else 2']], ['Y', 'X']),          # NEW: keyword fused
@@ -916,7 +918,7 @@ def correspond(cases, obs, tag, tier):
             # evalmodel refuses (fail-closed) what CPython computes on ints rather than floats beyond constant folding
             # (e.g. -max(0, X)): no reading of the real code to compare with
             refused = real is None and 'Python int' in str(o.get('why', ''))
-            if (a == 'N') != (real is None) and cases[i]['kind'] == 'prog' and not refused:
+            if (a == 'N') != (real is None) and cases[i]['kind'] in ('prog', 'mix') and not refused:
                 note(i, 'K_pyast', a[:300], real if real is not None else o.get('why', o.get('build_exc', o.get('compile_exc'))))
             continue
         j = json.loads(a[2:])
@@ -933,7 +935,7 @@ def correspond(cases, obs, tag, tier):
         if model != obs[i]['block']:
             note(i, 'K_code', model[-400:], obs[i]['block'][-400:])
     # ---- K_eval
-    elig = [i for i in live if cases[i]['kind'] == 'prog' and 'after' in obs[i] and not guard(cases[i], obs[i])]
+    elig = [i for i in live if cases[i]['kind'] in ('prog', 'mix') and 'after' in obs[i] and not guard(cases[i], obs[i])]
     # the Coq model reads every literal as a float: a Python int zero has no sign (-0 is 0, 0 * -1 is 0), a float zero has
     elig = [i for i in elig if reference_pass(cases[i])[:2] == reference_pass(cases[i], floats=True)[:2]]
     for i in list(elig):
@@ -973,23 +975,26 @@ def _raw_classes(s):
     body = '\n'.join(ln.split('#')[0] for ln in s.splitlines())
     f20 = re.search(r'(?:%s|\}|>)[ \t]+\[' % IDENT, body) is not None
     brace = '{{' in body or '}}' in body          # doubled braces are str.format escapes; a stray single brace is a ParserError (no finding)
-    called = set(re.findall(r'(?<![A-Za-z_0-9.])(%s)\s*\(' % IDENT, body))
-    plain = set(re.findall(r'(?<![A-Za-z_0-9.])(%s)(?![A-Za-z_0-9.]|\s*\()' % IDENT, body))
     fused = re.search(r'(?<![A-Za-z_0-9])(?:%s)[{<]' % '|'.join(KWS), body) is not None
-    return f20, brace, bool(called & plain), fused
+    return f20, brace, fused
 
 
 def guard(case, obs):
-    """inside the class of a kept finding (#19 name used as variable and function, #20 blank before an index bracket, brace
-    outside a parameter, leading-underscore series name): decided from the case alone"""
+    """inside the class of a kept finding (#20 blank before an index bracket, brace outside a parameter, leading-underscore
+    series name, term fused with a keyword): decided from the case alone"""
     if case.get('f20') or case.get('fmangle'):
         return True
     if case['kind'] == 'raw':
         return any(_raw_classes(case['script']))
-    if case['kind'] == 'text':
-        fn = {tk[1] for st in case['stmts'] for tk in st['toks'] if tk[0] == 'F'}
-        return any(tk[0] == 'T' and tk[2] in fn for st in case['stmts'] for tk in st['toks'])
     return False
+
+
+def name_clash(case):
+    """a name written both as a series and as a function somewhere in the script: Symbol.combine must reject it (SymbolError)"""
+    if case['kind'] != 'text':
+        return False
+    fn = {tk[1] for st in case['stmts'] for tk in st['toks'] if tk[0] == 'F'}
+    return any(tk[0] == 'T' and tk[2] in fn for st in case['stmts'] for tk in st['toks'])
 
 
 def py_tokens(src):
@@ -1080,11 +1085,16 @@ def oracle(case, obs):
         return fails
     kind = case['kind']
     if 'syms' not in obs:
-        if kind == 'text' and guard(case, obs) and obs.get('parse_exc') == 'SymbolError':
-            return fails        # a name used as a function AND as a variable in one statement, function first: rejected outright (the
-            #                     other order is finding #19); an explicit rejection of an ambiguous name breaks nothing
+        if (name_clash(case) or case.get('reject')) and obs.get('parse_exc') == (case.get('reject') or 'SymbolError'):
+            return fails        # a name used both as a series and as a function: rejected, in either order (b45daa1)
+        if case.get('reject'):
+            bad('parse|expected-' + case['reject'], 'parse_model raised %s, expected %s' % (obs.get('parse_exc'), case['reject']))
         if kind != 'raw' or 'expect' in case:
             bad('parse|' + obs.get('parse_exc', '?'), 'a script inside the documented syntax was not accepted (%s)' % obs.get('parse_exc'))
+        return fails
+    if name_clash(case) or case.get('reject'):
+        bad('parse|series-and-function-name-accepted', 'a name is used both as a series and as a function (or the script must be rejected with %s), '
+            'yet parse_model accepted the script: NAMES / symbols %s' % (case.get('reject', 'SymbolError'), [s[:2] for s in obs['syms']][:8]))
         return fails
     if obs.get('line_first') is not None and obs['line'] != obs['line_first']:
         bad('parse|history-dependent', 'parse_model(script) after the caller emptied the list a first parse_model(script) had returned gives %s, the first '
@@ -1096,7 +1106,7 @@ def oracle(case, obs):
         want = [(y, eq, code, False) for y, eq, code in case.get('expect', [])]
     else:
         want = [(st['toks'][0][2], expected_text(st, 'equation'), expected_text(st, 'code'), any(is_f20(tk) for tk in st['toks'])) for st in case['stmts']]
-    f20_raw, brace_raw, _, fused_raw = _raw_classes(case['script']) if kind == 'raw' else (False, False, False, False)
+    f20_raw, brace_raw, fused_raw = _raw_classes(case['script']) if kind == 'raw' else (False, False, False)
     for y, eq, code, f20 in want:
         s = sym.get(y)
         if s is None or s[1] != 'ENDOGENOUS' or s[3] is None:
@@ -1125,11 +1135,7 @@ def oracle(case, obs):
     if 'names' in obs:
         if names_want is not None and obs['names'] != names_want:
             lost = [nm for nm in names_want if nm not in obs['names']]
-            if lost and all(sym.get(nm, [0, ''])[1] == 'FUNCTION' for nm in lost):
-                bad('names|function-shadows-variable', 'series %s are used as variables but the symbol list holds them as FUNCTION only: NAMES = %s, the code reads undeclared series'
-                    % (lost, obs['names']))
-            else:
-                bad('names|missing' if lost else 'names|order', 'NAMES = %s, expected %s' % (obs['names'], names_want))
+            bad('names|missing' if lost else 'names|order', 'NAMES = %s, expected %s' % (obs['names'], names_want))
         endo = [s for s in obs['syms'] if s[1] == 'ENDOGENOUS' and s[2] is not None and s[3] is not None]
         emit = [s for s in obs['syms'] if s[1] in ('ENDOGENOUS', 'VERBATIM') and s[2] is not None and s[3] is not None]     # in SYMBOL-LIST order
         block = '\n\n'.join('        # %s\n        %s' % (s[2], s[3]) for s in emit)
